@@ -41,6 +41,8 @@ class TaggedDetGrammar(DetGrammar[U, V, W], Generic[T, U, V, W]):
     ):
         super().__init__(grammar.start, grammar.rules, clean=False)
         self.grammar = grammar
+        # keep the request the grammar was compiled for, not the one guessed from the variables in use
+        self.type_request = grammar.type_request
         self.tags = tags
 
     def programs(self) -> int:
